@@ -612,6 +612,21 @@ def run(ctx, rep):
     kinds = Kinds(ctx.classes)
     for q in ('torchtree.core.parameter.TransformedParameter', 'torchtree.evolution.tree_model.ReparameterizedTimeTreeModel'):
         c11.check_handlers(ctx, RuleProxy(rep, 'C07.C', 'handlers::'), kinds, ctx.classes.get(q))
+    # … and the value they report is the log-Jacobian at the CURRENT input only if every way of changing that input reaches them: the parameter kinds that sit between a
+    # transform and what the samplers move (concatenations, views, other transformed parameters) forward every event (C11.H), their setters end in a notification of the
+    # parameter written into (C11.W), and in-place writes into a wrapped parameter's tensor are followed by that parameter's own notification
+    done = {'torchtree.core.parameter.TransformedParameter'}
+    npar = 0
+    for cls in sorted(ctx.classes.subclasses('torchtree.core.abstractparameter.AbstractParameter'), key=lambda c: c.qualname):
+        if cls.module.name != 'torchtree.core.parameter':
+            continue
+        npar += 1
+        if cls.qualname not in done:
+            c11.check_handlers(ctx, RuleProxy(rep, 'C07.C', 'handlers::'), kinds, cls)
+        c11.check_setters(ctx, RuleProxy(rep, 'C07.C', 'setters::'), cls)
+    c11.check_inplace(ctx, RuleProxy(rep, 'C07.C', 'in-place::'), rule='C11.W', only=lambda m, fn: m.name == 'torchtree.core.parameter')
+    if npar < 4:
+        rep.incomplete('C07.C', 'parameter-kinds', '', f"only {npar} parameter classes found in core/parameter.py")
 
 
 def check_stateless_log_det(ctx, rep):
